@@ -305,3 +305,22 @@ Proof.
   intros Hm. unfold fmt_float. destruct (float_spec code) as [sp|] eqn:E; [|discriminate]. intro H. inversion H; subst t. exists sp. split; [reflexivity|].
   destruct (float_specs_have_digits code sp E) as (issci & d & space & w & ->). apply fmt_reads. exact Hm.
 Qed.
+
+(* ---- integers ("%d", "%10d"): the text reads back as the number *)
+Theorem int_reads n : read_number (int_text n) = Some (mkp (n <? 0) (Z.abs n) 0 0).
+Proof.
+  unfold int_text. destruct (n <? 0) eqn:C.
+  - destruct (digits_spec (- n) ltac:(lia)) as (c & r & E & Dc & _ & Hr & _).
+    unfold read_number. cbn [skip_sp]. change (45 =? 32) with false. cbv iota. cbn [read_sign]. change (45 =? 45) with true. cbv iota.
+    rewrite <- (app_nil_r (digits (- n))), Hr. cbn [read_digits Nat.add read_frac read_exp]. f_equal. f_equal. lia.
+  - destruct (digits_spec n ltac:(lia)) as (c & r & E & Dc & _ & Hr & _).
+    unfold read_number. rewrite E, (skip_sp_digit c r Dc), (read_sign_digit c r Dc), <- E.
+    rewrite <- (app_nil_r (digits n)), Hr. cbn [read_digits Nat.add read_frac read_exp]. f_equal. f_equal. lia.
+Qed.
+Theorem fmt_int_reads code n t : fmt_int code n = Some t -> read_number t = Some (mkp (n <? 0) (Z.abs n) 0 0).
+Proof.
+  unfold fmt_int. intro H.
+  assert (E : t = int_text n \/ t = pad 10 (int_text n)).
+  { destruct (code =? 2); [inversion H; auto|]. destruct (code =? 6); [inversion H; auto|discriminate]. }
+  destruct E as [-> | ->]; [|rewrite pad_reads]; apply int_reads.
+Qed.
